@@ -216,9 +216,13 @@ pub fn take_last_panic() -> Option<String> {
 /// Run the check, turning a panic of the checking thread into a failure.
 fn guarded_check<P: Prop>(ctx: &mut Ctx, case: &P::Case) -> Outcome {
     let _ = take_last_panic();
+    crate::common::LONG_KEY_SEEN.store(false, std::sync::atomic::Ordering::Relaxed);
     let res = std::panic::catch_unwind(std::panic::AssertUnwindSafe(|| P::check(ctx, case)));
     match res {
         Ok(mut o) => {
+            if crate::common::LONG_KEY_SEEN.swap(false, std::sync::atomic::Ordering::Relaxed) {
+                o.class("keys/long(1..16KiB,around-the-64-byte-id-overhead)");
+            }
             // a timeout of the harness's own plumbing (not of the code under test) is never a verdict: the worker gives up
             // and the run is inconclusive (exit 2)
             if let Some(f) = &o.failure {
